@@ -142,6 +142,15 @@ for p in sorted(glob.glob(os.path.join(HERE, "seeded", "*", "meta.json"))):
     if len(note) > 230:
         note = note[:227] + "..."
     rows.append("| %s | %s | %s | %s |" % (m["id"], ", ".join(m.get("detected_by") or ["**none**"]), note.replace("|", "/"), STRENGTHENED.get(m["id"], "caught as built")))
+N_MISSED = N_OTHER = 0
+for p in sorted(glob.glob(os.path.join(HERE, "seeded", "*", "meta.json"))):
+    m = json.load(open(p))
+    ran = [r for r in m.get("ran", []) if r.startswith("./check")]
+    own = [r for r in ran if (" " + m["property"] + " ") in r]
+    if own and "exit 1" not in own[0]:
+        N_MISSED += 1
+        if any("exit 1" in r for r in ran):
+            N_OTHER += 1
 text = """
 ## 12. Seeded property-breaking changes and which check catches which
 
@@ -151,8 +160,16 @@ which changes earlier agents had proposed for that property (their own notes, no
 and asked for different mechanisms - state kept across calls, ordering, boundaries, rarely used options;
 the fourth wave (`*-w4m*`) was asked for changes that need SCALE (inputs larger than internal thresholds),
 long histories, rare values, environment conditions or three-way option interactions, i.e. changes aimed
-at what small-scope exhaustive checking is most likely to miss. Of the 160 changes, 80 were not reported
-when first tried; all were after strengthening. Scale is handled by adding, per property, one or two
+at what small-scope exhaustive checking is most likely to miss; the fifth wave (`*-w5m*`) was told all
+earlier proposals and asked for error paths (what happens after something legitimately fails), argument
+forms (generator vs list, positional vs keyword, Feature vs id, tuple vs list), one public method changing
+what another later returns, shared or subtly different defaults, and off-by-one at documented boundaries.
+%d of the %d changes were not reported by their own property's check as it stood when they were first
+tried (%d of those were reported by another property's check straight away); all are now. Three further
+fifth-wave proposals (for C02, C04, C10) were dropped, not kept as seeded changes: all three only alter
+what a FAILED update leaves in the main database file, which the statements leave open (C10 only demands
+the backup file; the checks deliberately do not judge the main file there), so reporting them would be
+demanding more than the properties state. Scale is handled by adding, per property, one or two
 deliberately large executions next to the exhaustive small-scope exploration (C02, C03, C10, C16, C20);
 those are single cases, not an exhaustive sweep, and are labelled so in the evidence. Each was then confirmed here in a scratch copy
 outside /repo and /verif (`tools/seed.py`): the agent's demonstration passes on the unmodified copy, the
@@ -165,7 +182,7 @@ was weakened. Hand-made mutants used while building are in `/verif/mutants/`.
 | id | reported by | the change and what it needs to manifest (agent's note, abridged) | how it was caught |
 |----|-------------|-------------------------------------------------------------------|-------------------|
 %s
-""" % (len(rows), sum(1 for r in rows if "**none**" not in r), "\n".join(rows))
+""" % (N_MISSED, len(rows), N_OTHER, len(rows), sum(1 for r in rows if "**none**" not in r), "\n".join(rows))
 p = os.path.join(HERE, "DESIGN.md")
 s = open(p).read()
 i = s.find("\n## 12. Seeded property-breaking")
